@@ -296,6 +296,7 @@ func (h *NFSProcedureHandler) handleMkdir(body io.Reader, reply *RPCReply, authC
 	h.server.handler.attrCache.Invalidate(node.path)
 	h.server.handler.attrCache.InvalidateNegativeInDir(node.path)
 	h.server.handler.attrCache.Invalidate(dirPath)
+	h.server.handler.attrCache.InvalidateTree(dirPath)
 	if h.server.handler.dirCache != nil {
 		h.server.handler.dirCache.Invalidate(node.path)
 	}
